@@ -288,6 +288,13 @@ def _thread_task(task):
     return acc
 
 
+def _dbg_task(t):
+    """the same tuples with the logging module switched to DEBUG for the whole process"""
+    with T.debug_logging():
+        a = _asym_task(t[1]) if t[0] == "asym" else _sym_task(t[1])
+    return a.tag_env("debug-logging")
+
+
 def run(tier, seed):
     acc = Acc()
     thr = [("sym+sym", 2), ("asym+asym", 2), ("sym+asym", 2), ("same-args", 2), ("sym+sym@opcode", 1), ("asym+asym@opcode", 1)]
@@ -298,6 +305,7 @@ def run(tier, seed):
         ALPHA[:] = ALPHA_THOROUGH
     core.pmerge(_asym_task, [(a, b) for a in ALPHA for b in ALPHA], acc)
     core.pmerge(_sym_task, ALPHA, acc)
+    core.pmerge(_dbg_task, [("asym", (a, b)) for a in ALPHA[:3] for b in ALPHA[:3]] + [("sym", a) for a in ALPHA[:3]], acc)
     _extra(acc)
     _labels(acc)
     _poison(acc)
@@ -307,6 +315,7 @@ def run(tier, seed):
 
 def replay(rec):
     r = T.unjson(rec["replay"])
+    r.pop("env", None)
     sp = T.lib().sp
     if r["fn"] == "schedule":
         from .. import sched
